@@ -822,8 +822,26 @@ def _structural(rec):
                 rec.violation(f'C12|valid-specification-rejected-{type(e).__name__}|structural:{name}:{entry}',
                               f'valid {name} model rejected: {str(e)[:200]}', dict(part='structural'))
                 rec.retire = True
+    # an integration variable is 'inside an integral' only inside the integral over THAT variable
+    import math as _m
+
+    def _phi(om):
+        return ex.exp(-0.5 * om * om) * (1.0 / _m.sqrt(2.0 * _m.pi))
+
+    def _other_integral():
+        o1, o2 = ex.RandomVariable('om1'), ex.RandomVariable('om2')
+        return ex.Integrate(_phi(o2) * ex.exp(ex.Beta('b1', 0.5, None, None, 0) * o1), 'om2')
+
+    def _absent_variable():
+        o1 = ex.RandomVariable('om1')
+        return ex.Integrate(_phi(o1) * ex.exp(ex.Beta('b1', 0.5, None, None, 0) * o1), 'om2')
+
+    cases['integration-variable-inside-the-integral-over-another-variable'] = lambda e: via(e, _other_integral())
+    cases['integral-over-a-variable-its-argument-does-not-contain'] = lambda e: via(e, _absent_variable())
     for name, fn in cases.items():
         for entry in ('biogeme', 'expression', 'biogeme-in-a-catalog', 'expression-in-a-catalog'):
+            if name == 'integration-variable-inside-the-integral-over-another-variable' and entry.startswith('expression'):
+                continue      # the placement rules are applied by the model object; at the expression level the engine raises (see plant_engine)
             _expect_refusal(rec, f'{name}', entry, lambda fn=fn, entry=entry: fn(entry))
     # nests: every position of an overlap / of an alternative outside the choice set, among three nests over six
     # alternatives, in both nest syntaxes, for the nested and the cross-nested logit
